@@ -12,7 +12,7 @@ CVC5_TIMEOUT_S = int(os.environ.get('PYVC_CVC5_S', '20'))
 MAX_INST = int(os.environ.get('PYVC_MAX_INST', '20000'))
 
 
-def ground_terms(fs, bound_ids=()):
+def ground_terms(fs, bound_ids=(), want_sets=False):
     """uninterpreted constants and applications of uninterpreted functions to such, grouped by sort"""
     by_sort = {}
     seen = set()
@@ -36,13 +36,15 @@ def ground_terms(fs, bound_ids=()):
                 ok = True
             elif k == z3.Z3_OP_DT_CONSTRUCTOR and t.num_args() > 0 and t.sort().name().startswith('Rec_Tup'):
                 ok = True       # pairs built by the problem itself (items of a map)
+            elif k in (z3.Z3_OP_ARRAY_MAP, z3.Z3_OP_STORE) and want_sets:
+                ok = True       # set-valued terms, for clauses that quantify over sets (choice axioms)
             if ok and not _mentions(t, bound_ids):
-                by_sort.setdefault(t.sort().name(), {})[i] = t
+                by_sort.setdefault(t.sort().sexpr(), {})[i] = t
                 srt = t.sort()
                 if srt.name().startswith('Opt_') and k != z3.Z3_OP_DT_ACCESSOR:
                     try:
                         w = srt.accessor(1, 0)(t)      # the payload of an optional entry is a natural instantiation candidate
-                        by_sort.setdefault(w.sort().name(), {})[w.get_id()] = w
+                        by_sort.setdefault(w.sort().sexpr(), {})[w.get_id()] = w
                     except Exception:
                         pass
     return by_sort
@@ -98,7 +100,7 @@ def instantiate(hyps, qhyps, goal, rounds=2, max_depth=2):
         for v in q.vars:
             bound.add(v.get_id())
     for _ in range(rounds):
-        gt = ground_terms(cur + [q.body for q in qhyps], bound)
+        gt = ground_terms(cur + [q.body for q in qhyps], bound, any(z3.is_array(v) for q in qhyps for v in q.vars))
         new = []
         for qi, q in enumerate(qhyps):
             pools = []
@@ -106,7 +108,7 @@ def instantiate(hyps, qhyps, goal, rounds=2, max_depth=2):
                 for (decl, idx) in q.triggers:
                     if isinstance(decl, str):
                         v = q.vars[0]
-                        for t in gt.get(v.sort().name(), {}).values():
+                        for t in gt.get(v.sort().sexpr(), {}).values():
                             if _depth(t) <= 1:
                                 key = (qi, t.get_id())
                                 if key not in done:
@@ -123,14 +125,20 @@ def instantiate(hyps, qhyps, goal, rounds=2, max_depth=2):
                         new.append(z3.substitute(q.body, *zip(q.vars, combo)))
                 continue
             for v in q.vars:
-                pool = [t for t in gt.get(v.sort().name(), {}).values()
+                pool = [t for t in gt.get(v.sort().sexpr(), {}).values()
                         if _depth(t) <= (max_depth + 1 if t.decl().kind() == z3.Z3_OP_DT_CONSTRUCTOR else max_depth)]
                 pools.append(pool)
-            n = 1
-            for p in pools:
-                n *= max(len(p), 1)
-            if n > MAX_INST:
+            def _size(ps):
+                n = 1
+                for p in ps:
+                    n *= max(len(p), 1)
+                return n
+            # the more variables a clause has, the shallower the terms it is instantiated with
+            budget = MAX_INST if len(q.vars) <= 2 else 6000
+            if _size(pools) > budget:
                 pools = [[t for t in p if _depth(t) <= 1] for p in pools]
+            if _size(pools) > budget and len(q.vars) >= 3:
+                pools = [[t for t in p if _depth(t) == 0] for p in pools]
             cnt = 0
             for combo in itertools.product(*pools):
                 key = (qi,) + tuple(t.get_id() for t in combo)
